@@ -49,6 +49,9 @@ CHECKS = {
     "C09": ("exploration", E1 + " (metamorphic pairs: impedance scaling, frequency scaling, point reversal)",
             "Noisy mock and ladder spectra x six linear tests (+cnls) x {Z, Y} x capacitance x inductance x num_RC x log_F_ext x 13 transformations (|Z| and f scaled by 1e-6..1e6 and 2^+-20, reversed order): residuals, pseudo chi-squared, time constants and model impedances of the transformed run must equal the rescaled original within frozen, tiered tolerances (0 for reversal, 1e-6 without C/L columns and for |Z| scaling of least-squares variants, 1e-3 otherwise). Exhaustive over the declared grid.",
             "Tolerances were calibrated once on the unchanged tree and frozen; num_RC is kept in the well-conditioned range; the un-equilibrated w columns are a recorded known finding keyed by the measured un-normalised condition number.", "DESIGN.md section 4, C09"),
+    "C11": ("exploration", E1 + " (option cross products on constant-phase and ladder spectra; analytic modulus as oracle)",
+            "Constant-phase spectra x 5 smoothers x 4 interpolators x {Z, Y}, (num_points, polynomial_order) pairs, custom weights x frequency grids, named windows x centres x widths and the default call, ladders, scaling by 2^10 and 1e-3, modification of zero-weight moduli, every smoothing filter on exactly constant/linear phase, and the window generator for 13 windows x 9 placements; oracles are the analytic modulus (2e-4), a frozen 15 % band for ladders, equivariance, and filter exactness (1e-10).",
+            "Spectra are a declared finite set; bands were calibrated once on the unchanged tree and frozen.", "DESIGN.md section 4, C11"),
 }
 
 NOT_YET = "check not built yet in this round (planned, see DESIGN.md section 4)"
